@@ -63,6 +63,10 @@ type Case struct {
 	PreStop bool   // Fetcher.Stop() is called before the first Run (documented no-op)
 	Again   *Again // a second Run / Scan on the same object after the first has returned
 
+	// options taken from the package defaults, and earlier independent fetches in the same process
+	Defaults bool   // build the options from scanner.Default{Fetcher,Scanner}Options(), touching only the fields that differ
+	Warm     []Warm // fetches run before the main object is built, each on DefaultFetcherOptions() against its own log
+
 	// scanner only
 	Matcher     int
 	MatchArg    int
@@ -301,6 +305,27 @@ func genCase(t *rapid.T, scan bool) Case {
 	}
 	if !scan {
 		c.PreStop = weighted(t, "preStop", 7, 1) == 1
+	}
+
+	// package defaults: several independent objects built one after the other in one process
+	c.Defaults = weighted(t, "defaults", 3, 2) == 1
+	if c.Defaults {
+		for i, n := 0, weighted(t, "nWarm", 2, 3, 1); i < n; i++ {
+			w := Warm{Size: rapid.Int64Range(0, final).Draw(t, "warmSize")}
+			if weighted(t, "warmSmaller", 1, 2) == 1 && c.Init > 0 {
+				w.Size = rapid.Int64Range(0, c.Init-1).Draw(t, "warmSizeSmaller")
+			}
+			if rapid.Bool().Draw(t, "warmBatch") {
+				w.Batch = rapid.IntRange(1, 50).Draw(t, "warmBatchSize")
+			}
+			if weighted(t, "warmFetchers", 3, 1) == 1 {
+				w.Fetchers = rapid.IntRange(2, 4).Draw(t, "warmFetchersN")
+			}
+			if weighted(t, "warmStart", 3, 1) == 1 && w.Size > 0 {
+				w.Start = rapid.Int64Range(1, w.Size).Draw(t, "warmStartAt")
+			}
+			c.Warm = append(c.Warm, w)
+		}
 	}
 
 	if scan {
